@@ -180,7 +180,8 @@ class BackendDecisionStream(Stream):
         base = c['config'].replace('enfold_', '').replace('observable_', '')
         if not base.startswith('mongo'):
             return None
-        v = [specs.py(c['inquiry'][k]) for k in ('action', 'subject', 'resource')]
+        # Inquiry.__init__ turns a falsy element (None, False, 0, ...) into '' - that is the value the query carries
+        v = [specs.py(c['inquiry'][k]) or '' for k in ('action', 'subject', 'resource')]
         strs = [x for x in v if isinstance(x, str)]
         elements = [e[1] for p in c['policies'] for f in ('actions', 'subjects', 'resources') for e in p[f]
                     if e[0] == 's']
